@@ -2,6 +2,10 @@
 # Regenerates /verif/MANIFEST.json from the table below (single source of truth for the interface).
 import json
 CLAIMED = {
+ "C12": dict(level="exploration", design="DESIGN.md §4.2",
+   technique="deterministic simulation of call histories with cache-eviction fault injection; refinement check of the cached document against the uncached single-call reference model",
+   text="Histories of read calls (typed loads incl. wrong types, raw resolves, stream data, raw and decoded image data, page look-ups, lazy loads; resolver reuse/renewal) on a document with real SyncCache caches in three cache modes, with eviction faults between and inside calls; each call's answer must equal the answer of that call alone on a fresh uncached document. Complete enumeration of ordered pairs (quick) / triples (thorough) of call kinds per sampled object, plus seeded random histories; fault-free and fault batches counted separately.",
+   note="Reference model is the library's own uncached behaviour; digests via canonicalised Debug renderings; objects of large corpus files are sampled."),
  "C13": dict(level="exploration", design="DESIGN.md §4.1",
    technique="deterministic simulation: seeded baton scheduler over real OS threads at the Cache/Log seams + eviction fault injection; linearizability-style check of every answer against the sequential (alone) answer",
    text="Seeded search over schedules: 2-4 simulated reader threads (real OS threads released one at a time by a PRNG-driven scheduler at the Log/Cache seam points inside StorageResolver::get) x resolver sharing {shared, per thread, per call} x cache modes x eviction faults; every answer compared with the answer of the same call on a fresh uncached document, non-matching answers must be explained by a sequential order; panics, deadlocks (exact, with wait-for cycle), step budget and leftover recursion-guard entries are invariants. Sampling, not proof.",
